@@ -269,7 +269,9 @@ type c16Peer struct {
 
 func c16Kad(id kb.ID) uint64 { return binary.BigEndian.Uint64(id[:8]) }
 
-type c16Groups struct{ num map[peerdiversity.PeerIPGroupKey]int }
+type c16Groups struct {
+	num map[peerdiversity.PeerIPGroupKey]int
+}
 
 // group of one address, computed with the functions GetClosestPeers uses
 func (g *c16Groups) of(a ma.Multiaddr) int {
